@@ -431,7 +431,8 @@ impl World for WorldG {
                 }
             }
             let min_delay = match focus {
-                "C09" => *rng.pick(delays),
+                // the bypass role (C06) means something only where there is a delay to bypass
+                "C09" | "C06" => *rng.pick(delays),
                 "C08" | "C03" => *rng.pick(&[0u64, 0, 1, 10]),
                 _ => *rng.pick(&[0u64, 0, 0, 1, 3600]),
             };
